@@ -218,7 +218,7 @@ def extract(repo):
     except Exception:
         o.fail("supportedVersions", "List Nat", "[]", "SUPPORTED_VERSIONS not found")
     op = ws(fn_body(ver, r"pub fn on_packet<Pub: event::EndpointPublisher>\(") or "")
-    cmp_of(o, "vnMinLenCmp", op, r"if payload_len (<|<=|>|>=) \((\w+) as usize\) \{ return Err\(Error\); \}",
+    cmp_of(o, "vnMinLenCmp", op, r"if payload_len (<|<=|>|>=) \(?(\w+)(?: as usize\))? \{ return Err\(Error\); \}",
            "on_packet: if payload_len < MINIMUM_MAX_DATAGRAM_SIZE { return Err(Error) }", {"MINIMUM_MAX_DATAGRAM_SIZE": min_dgram})
     flag(o, "vnNeverForVn", "ProtectedPacket::VersionNegotiation(_packet) => { return Ok(()); }" in op,
          "on_packet: VersionNegotiation(_) => return Ok(()) (never answered)")
